@@ -100,7 +100,7 @@ func (p *ParserData) AddDiceDetail(begin IntType, end IntType) {
 
 func (e *ParserData) AddOp(operator CodeType) {
 	var val interface{} = nil
-	if operator == typeJne || operator == typeJmp {
+	if operator == typeJne || operator == typeJmp || operator == typeJeDup {
 		val = IntType(0)
 	}
 	switch operator {
